@@ -215,6 +215,7 @@ func c06Opts() gen.Opts {
 	o.Directives = []string{"|vfail", "|vq"}
 	o.Funcs = []string{"vfail"}
 	o.NoOrderFuncs = false
+	o.SameFileNames = true
 	return o
 }
 
